@@ -125,6 +125,19 @@ func kdeRecord(out io.Writer, args []string) error {
 				wi[i] = 1 + rng.Intn(9)
 			}
 		}
+		if rng.Intn(8) == 0 {
+			// a heavy centre and two far-out clusters carrying 1.05 % of the weight each, bandwidths small against the gaps:
+			// the CDF has plateaus just above 1 % and just below 99 %, where a search for the 98 % interval that aims at
+			// those levels (instead of inside them) comes to rest
+			off, spread = 0, 16
+			iv = []int64{-600, -7, 0, 9, 600}
+			wi = []int{21, 600, 700, 658, 21}
+			if rng.Intn(2) == 0 {
+				iv = []int64{-600, -600, -598, 0, 4, 600, 601, 601}
+				wi = []int{7, 7, 7, 1000, 958, 7, 7, 7}
+			}
+			n = len(iv)
+		}
 		var minx, maxx int64
 		var xs, ws, gxs, gws []float64
 		var okX, okW func() bool
